@@ -7,8 +7,12 @@ callback, an untimed switch handler, a timed switch handler (the last three exer
 sites of delays.py / switch_controller.py); posting from inside handlers and callbacks happens in every tree.
 Model side: MpfVerif.Model.EventBus (literal stack-of-deques loop) through the compiled driver.
 Oracle (model independent): a recursive reference interpreter (depth-first pre-order recursion over the posting tree,
-callbacks LIFO when nothing is pending, stable descending priority, snapshot per dispatch, handler kwargs win) plus
-trace monitors (no nesting, dispatches contiguous, every callback exactly once, boolean stops, relay folds).
+callbacks LIFO when nothing is pending, stable descending priority, snapshot per dispatch, handler kwargs win, blocking
+facilities, monitor reports, wait futures; it ends at the first exception) plus trace monitors (no nesting, dispatches
+contiguous, every callback at most once, boolean stops, relay folds).  What the property does not state (what is lost
+after an exception, futures, suffixed replace_handler keeping the old entry) is counted and compared with the model only.
+Session 3: blocking_facility/_min_priority, raising handlers, 'ev.N' / 'ev{cond}' strings in add/replace_handler,
+functools.partial callbacks, monitor_events, wait_for_any_event, translator tie Gen/EventFacts.lean.
 """
 import json
 
@@ -19,50 +23,131 @@ from harness.common.util import InfraError
 ID = "C01"
 LEAN_MODULES = ["MpfVerif.Props.C01"]
 PROPS_FILE = "MpfVerif/Props/C01.lean"
-GEN = []
+
+
+def _gen_event_facts():
+    from translate import event_facts
+    return event_facts.generate()
+
+
+GEN = [_gen_event_facts]
 MANIFEST = {
-  "text": "Proof on a Lean model of the event bus (registry with add_handler / remove_handler_by_key / remove_all_handlers_for_event / replace_handler / remove_handler(method) / remove_handler_by_event, _post incl. its fast path, _run_handlers with snapshot / kwargs merge / conditions / boolean and relay handling, _process_event, and process_event_queue transcribed one loop iteration at a time with its stack of deques): for ALL handler programs (handlers and callbacks that post, add, replace and remove handlers - also themselves and their peers while their own event is being dispatched; any priorities, conditions, kwargs) and any history, every handler list stays sorted by descending priority with registration order among equals; the loop refines a single depth-first agenda for any number of iterations (events posted during a dispatch go before everything already waiting; the loop never ends with events or callbacks left), callbacks run only when nothing is pending, last-registered first, each at most once; each dispatch (plain, boolean, relay) calls exactly the handlers of the snapshot taken when it begins whose condition holds on the merged kwargs, in list order, whatever the handlers do to the registry meanwhile (a peer removed or replaced before its turn is still called from the snapshot, one added meanwhile is not, nobody is skipped or called twice), handler kwargs overriding posted ones; replace_handler drops exactly the entries with the same callback (and equal kwargs if given) and places the new entry behind all entries of the same or a higher priority. The model is tied to mpf/core/events.py by a correspondence run on every check: generated programs are executed on the real EventManager of a real machine from boot, a delay callback, an untimed and a timed switch handler, and the observation sequences (handler id, event, ordered merged kwargs; callback id, post serial, kwargs) are compared with the model driver's; an independent recursive reference interpreter and trace monitors (per dispatch: called handlers are entries of the list at dispatch begin, each at most once, in priority order, and every unconditional entry not removed before its turn is called) check the property on the implementation trace.",
-  "note": "Trusted: Lean kernel + {propext, Classical.choice, Quot.sound}; the hand-written model Model/EventBus.lean (validated only by the differential runs); asyncio call_soon eventually running process_event_queue; BoolTemplate condition evaluation is modelled as key == int. Not modelled: blocking_facility/_min_priority, monitor_events/BCP, replace_handler with a condition in the event string, callbacks that are not comparable by value (functools.partial), exceptions raised by handlers, re-entrant calls of process_event_queue, queue events (C02).",
-  "technique": "Lean 4 theorems (simulation of the deque stack by one agenda with a loop-head invariant, induction over steps/op lists) on a hand model + differential correspondence with the real EventManager + independent reference interpreter",
-  "translated": False,
+  "text": "Proof on a Lean model of the event bus (registry with add_handler / remove_handler_by_key / remove_all_handlers_for_event / replace_handler / remove_handler(method) / remove_handler_by_event, callbacks identified by their equality class (bound methods equal by value, functools.partial only equal to itself), _post incl. its fast path, the event monitor and the call_soon bookkeeping, _run_handlers with snapshot / blocking_facility and _min_priority / kwargs merge / conditions / boolean and relay handling / exceptions, _process_event, and process_event_queue transcribed one loop iteration at a time with its stack of deques and with what an exception does to it): for ALL handler programs (handlers and callbacks that post, add, replace and remove handlers - also themselves and their peers while their own event is being dispatched - return _min_priority blocks, raise, resolve futures; any priorities, facilities, conditions, kwargs) and any history, every handler list stays sorted by descending priority with registration order among equals; the loop refines a single depth-first agenda for any number of iterations (events posted during a dispatch go before everything already waiting; the loop never ends with events or callbacks left), callbacks run only when nothing is pending, last-registered first, each at most once; each dispatch (plain, boolean, relay) in which nobody raises calls exactly the handlers of the snapshot taken when it begins that are not blocked by a _min_priority returned earlier in the same dispatch and whose condition holds on the merged kwargs, in list order, whatever the handlers do to the registry meanwhile; if a handler raises, what was delivered is a prefix of that list, the event's callback is not queued and the invocation of process_event_queue ends with its waiting events dropped, event_queue holding what the interrupted dispatch posted and callback_queue untouched (the model follows the code; MPF shuts down on such an exception); _min_priority never suppresses a handler without blocking facility and suppresses one with a facility only below the limit of 'all' or of its facility; with the event monitor on every post is queued and reported once; a wait_for_event future is resolved at most once. Translator tie: Gen/EventFacts.lean is regenerated from the AST of mpf/core/events.py on every check (sort key/direction and append in add_handler, copy iteration in _run_handlers, which end _post / _process_event / process_event_queue push and pop); the model driver runs with these facts and source_facts_canonical proves they are the ones the theorems are stated for, so a change of any of them in the source breaks a proof. Correspondence on every check: generated programs are executed on the real EventManager of a real machine from boot, a delay callback, an untimed and a timed switch handler, and the observation sequences (handler id, event, ordered merged kwargs; callback id, post serial, kwargs; monitor reports; resolved futures; invocations ended by an exception; what is left queued) are compared with the model driver's; an independent recursive reference interpreter and trace monitors check the property on the implementation trace (up to the first exception; after it only the safety monitors and the model comparison apply).",
+  "note": "Trusted: Lean kernel + {propext, Classical.choice, Quot.sound}; the hand-written model Model/EventBus.lean (tied by the generated facts for sort order, copy iteration and deque ends, otherwise validated by the differential runs); translate/event_facts.py (AST pattern matching; anything it does not recognise breaks the tie instead of being skipped); asyncio call_soon eventually running process_event_queue; BoolTemplate condition evaluation is modelled as key == int. Not modelled: re-entrant calls of process_event_queue from a handler (a finding on a tree without the guard: dispatches nest; generation is behind C01_REENTER=1, the model has the guarded behaviour = nothing happens), a _min_priority dict without 'all' (KeyError in the code), _silent posts, cancelled futures, add_async_handler, EventManager.stop, post from another thread, queue events (C02).",
+  "technique": "Lean 4 theorems (simulation of the deque stack by one agenda with a loop-head invariant, induction over steps/op lists/handler lists) on a hand model parameterised by facts translated from the source AST + differential correspondence with the real EventManager + independent reference interpreter",
+  "translated": True,
  }
 RULE = ("a case = program table (handler/callback programs as data: posts of plain/boolean/relay events with/without "
-        "callback and kwargs, add handler, remove by key, remove all, replace_handler, remove_handler(method), "
-        "remove_handler_by_event; 30% of the registered handlers call one of these on their own event while it is being "
-        "dispatched, aimed at themselves / a peer / an absent callback; 25% of registrations share a callback) + 1-5 stimuli, each a list of actions run from a "
-        "context (boot, delay, switch, timed_switch) followed by a drain; events are levelled so every program "
-        "terminates; priorities -3..3 with ties, 30% conditions, handler kwargs colliding with posted ones. "
-        "non-trivial = at least one handler invocation posted a further event or changed the registry during a "
-        "dispatch, or a boolean/relay result changed the flow; distinct = canonical JSON of the case")
+        "callback and kwargs, add handler (optionally with blocking facility, 'ev.N' priority suffix, '{cond}', a "
+        "functools.partial as callback), remove by key, remove all, replace_handler (also with a suffixed event string or a "
+        "fresh partial), remove_handler(method), remove_handler_by_event, raise, return of a _min_priority block; 30% of the "
+        "registered handlers call a registry mutator on their own event while it is being dispatched, aimed at "
+        "themselves / a peer / an absent callback; 25% of registrations share a callback) + 1-5 stimuli, each a list of "
+        "actions (posts, registry actions, wait_for_any_event on 1-3 event strings, event monitor on/off) run from a "
+        "context (boot, delay, switch, timed_switch) followed by a drain; each feature (blocking 45%, exceptions 30%, "
+        "suffixes 45%, partials 40%, waits 35%, monitor 20%) is switched on per case so that it also occurs alone; events "
+        "are levelled so every program terminates; priorities -3..3 with ties, 30% conditions, handler kwargs colliding "
+        "with posted ones. non-trivial = at least one handler invocation posted a further event or changed the registry "
+        "during a dispatch, a boolean/relay result changed the flow, a handler was blocked, raised, a future resolved, a "
+        "post was monitored or a suffixed replace ran; distinct = canonical JSON of the case")
 TRUSTED = [
     "modelled, not verified: asyncio call_soon/call_at eventually run process_event_queue; BoolTemplate evaluation of "
-    "'k==v' conditions (modelled as: key present and equal to the int); Python dict insertion order and list.sort stability",
-    "Model/EventBus.lean is hand-written; tied to mpf/core/events.py (and the drain sites in delays.py, "
-    "switch_controller.py) by correspondence on every run",
+    "'k==v' conditions (modelled as: key present and equal to the int); Python dict insertion order and list.sort stability; "
+    "functools.partial / bound-method equality (equality class `fn` of a callback object)",
+    "Model/EventBus.lean is hand-written; tied to mpf/core/events.py by Gen/EventFacts.lean (sort key/direction, copy "
+    "iteration, deque ends: translate/event_facts.py reads them from the AST on every check) and, with the drain sites in "
+    "delays.py / switch_controller.py, by correspondence on every run",
+    "an exception leaving process_event_queue is caught by the harness where the asyncio loop / DelayManager / "
+    "SwitchController would receive it; what MPF does afterwards (shutdown) is not part of the model",
 ]
-ASSUMPTIONS = ["handlers do not raise and do not call process_event_queue re-entrantly",
-               "no blocking_facility/_min_priority, no BCP event monitor, condition keys never hold bools",
+ASSUMPTIONS = ["handlers do not call process_event_queue re-entrantly (unless C01_REENTER=1: needs the re-entrancy guard)",
+               "a _min_priority dict always has the key 'all' (as every producer in mpf makes it); condition keys never "
+               "hold bools; no _silent posts; futures are not cancelled",
                "queue events are covered by C02"]
 
-EVR = 0   # key id of ev_result
-CAP = 250  # handler invocations per case (generator discards bigger cases)
+EVR = 0      # key id of ev_result
+MPK = 100    # key id of _min_priority (inside that dict: 0 = 'all', n = facility 'f<n>')
+CAP = 250    # handler invocations per case (generator discards bigger cases)
+WPID = 50000  # program ids of the wait handlers of wait_for_any_event (WPID + wid)
+# generate handlers that call process_event_queue() themselves (re-entrantly).  Off by default: on a tree without a
+# re-entrancy guard in process_event_queue the dispatches nest and callbacks run early (signature nested-dispatch); the
+# repair is commit `fix: make process_event_queue re-entrancy safe` on branch verif-C01-s3.  C01_REENTER=1 turns it on.
+import os
+REENTER = os.environ.get("C01_REENTER", "0") == "1"
+
+
+# a handler record is [key, base priority, kwargs, condition, pid] or [..., ext] with
+# ext = {"fn": equality class of the callback object (default pid; anything else = an object that only equals itself,
+#        a functools.partial), "fac": blocking facility n or None, "psuf": N of an 'ev.N' priority suffix or None}
+def hext(h):
+    return h[5] if len(h) > 5 and h[5] else {}
+
+
+def hfn(h):
+    return hext(h).get("fn", h[4])
+
+
+def hfac(h):
+    return hext(h).get("fac")
+
+
+def hpsuf(h):
+    return hext(h).get("psuf")
+
+
+def hprio(h):
+    """priority the entry is registered with: add_handler adds the '.N' of the event string"""
+    return h[1] + (hpsuf(h) or 0)
+
+
+def is_raw(h):
+    """replace_handler called with 'ev{cond}' / 'ev.N': the unsplit string is looked up, nothing is removed"""
+    return h[3] is not None or hpsuf(h) is not None
+
+
+def ev_string(ev, h):
+    name = "ev%d" % ev
+    if hpsuf(h) is not None:
+        name += ".%d" % hpsuf(h)
+    if h[3] is not None:
+        name += "{%s==%d}" % (kname(h[3][0]), h[3][1])
+    return name
+
+
+def wait_entries(a):
+    """["W", wid, [[ev, key, cond, psuf], ...]] -> the handler records wait_for_any_event registers (priority 1)"""
+    out = []
+    for ev, key, cond, psuf in a[2]:
+        out.append((ev, [key, 1, [], cond, WPID + a[1], {"fn": 20000 + key, "psuf": psuf}]))
+    return out
 
 
 # ---------------------------------------------------------------------------------------------------------------------
 # generator
 # ---------------------------------------------------------------------------------------------------------------------
 class Gen:
-    def __init__(self, r, nev=None, queue_types=False):
+    def __init__(self, r, nev=None, queue_types=False, extended=True):
         self.r = r
         self.nev = nev or r.randint(2, 7)
         self.progs = {}
         self.next_pid = 1
         self.next_key = 1
+        self.next_wid = 1
         self.key_ev = {}
         self.budget = 60
         self.types = ["n", "n", "n", "b", "r"]
         self.prog_level = {}     # handler programs: the event level they were generated for (posts go strictly higher)
-        self.regs = []           # (ev, key, pid, kw) of every generated registration
+        self.regs = []           # (ev, key, pid, kw, fn) of every generated registration
+        self.ext = extended
+        # the features of this case (most cases have a few of them, so that each also occurs alone)
+        x = r.random() if extended else 1.0
+        self.f_block = extended and r.random() < 0.45
+        self.f_raise = extended and r.random() < 0.3
+        self.f_suffix = extended and r.random() < 0.45
+        self.f_partial = extended and r.random() < 0.4
+        self.f_wait = extended and r.random() < 0.35
+        self.f_monitor = extended and x < 0.2
+        self.f_reenter = extended and REENTER and r.random() < 0.15
 
     def kw(self, maxn=2):
         r = self.r
@@ -75,6 +160,13 @@ class Gen:
 
     def ret(self):
         r = self.r
+        if self.f_block and r.random() < 0.3:
+            mp = [[0, r.choice([-4, -1, 0, 0, 1, 2, 4])]]
+            for f in (1, 2):
+                if r.random() < 0.6:
+                    mp.append([f, r.randint(-3, 4)])
+            r.shuffle(mp)
+            return ["B", mp]
         x = r.random()
         if x < 0.4:
             return ["N"]
@@ -102,6 +194,10 @@ class Gen:
                 acts.append(self.post(level))
             else:
                 acts.append(self.regop(level))
+        if self.f_raise and r.random() < (0.12 if not is_cb else 0.06):
+            acts.insert(r.randint(0, len(acts)), ["Z"])
+        if self.f_reenter and not is_cb and r.random() < 0.15:
+            acts.insert(r.randint(0, len(acts)), ["Q"])
         self.progs[pid] = {"acts": acts, "ret": self.ret() if not is_cb else ["N"]}
         if not is_cb:
             self.prog_level[pid] = level
@@ -125,8 +221,16 @@ class Gen:
         shared = [p for p, lv in self.prog_level.items() if lv >= ev and self.progs[p] is not None]
         pid = r.choice(shared) if shared and r.random() < 0.25 else self.new_prog(ev)
         kw = self.kw()
-        self.regs.append((ev, key, pid, kw))
-        return [key, r.randint(-3, 3) if r.random() < 0.85 else r.choice([-3, 3, 0]), kw, cond, pid]
+        ext = {}
+        if self.f_partial and r.random() < 0.3:
+            ext["fn"] = 10000 + key          # a functools.partial: equal to nothing but itself
+        if self.f_block and r.random() < 0.45:
+            ext["fac"] = r.choice([1, 1, 2])
+        if self.f_suffix and r.random() < 0.3:
+            ext["psuf"] = r.choice([-2, -1, 1, 2, 3])
+        self.regs.append((ev, key, pid, kw, ext.get("fn", pid)))
+        h = [key, r.randint(-3, 3) if r.random() < 0.85 else r.choice([-3, 3, 0]), kw, cond, pid]
+        return h + [ext] if ext else h
 
     def absent_pid(self):
         pid = self.next_pid
@@ -137,36 +241,74 @@ class Gen:
 
     def mutator(self, ev, self_pid):
         """replace_handler / remove_handler / remove_handler_by_event / remove_handler_by_key aimed at event `ev`:
-        target = the caller itself, a peer registered for the same event (earlier or later in the list), or absent"""
+        target = the caller itself, a peer registered for the same event (earlier or later in the list), or absent.
+        A target is a callback object: the value-comparable one of a program, or one particular partial."""
         r = self.r
         peers = [g for g in self.regs if g[0] == ev]
         x = r.random()
+        mine = [g for g in peers if g[2] == self_pid]
         if x < 0.4 and self_pid is not None:
-            tgt = self_pid
+            tgt, fn = self_pid, (r.choice(mine)[4] if mine else self_pid)
         elif x < 0.85 and peers:
-            tgt = r.choice(peers)[2]
+            g = r.choice(peers)
+            tgt, fn = g[2], g[4]
         else:
             tgt = self.absent_pid()
+            fn = tgt
         y = r.random()
         if y < 0.5:
             key = self.next_key
             self.next_key += 1
             self.key_ev[key] = ev
             z = r.random()
-            mine = [g[3] for g in self.regs if g[2] == tgt and g[3]]
-            kw = [] if z < 0.55 else (list(reversed(r.choice(mine))) if mine and z < 0.9 else self.kw())
-            self.regs.append((ev, key, tgt, kw))
-            return ["H", ev, [key, r.randint(-3, 3), kw, None, tgt]]
+            kws = [g[3] for g in self.regs if g[2] == tgt and g[3]]
+            kw = [] if z < 0.55 else (list(reversed(r.choice(kws))) if kws and z < 0.9 else self.kw())
+            ext = {}
+            cond = None
+            if fn != tgt:
+                # `replace_handler(ev, partial(...))` builds a new partial every time: it never equals the old one
+                ext["fn"] = 10000 + key
+            if self.f_suffix and r.random() < 0.35:
+                if r.random() < 0.5:
+                    ext["psuf"] = r.choice([-1, 1, 2])
+                else:
+                    cond = [r.randint(1, 4), r.randint(-1, 2)]
+            self.regs.append((ev, key, tgt, kw, ext.get("fn", tgt)))
+            h = [key, r.randint(-3, 3), kw, cond, tgt]
+            return ["H", ev, h + [ext] if ext else h]
         if y < 0.7:
-            return ["E", ev, tgt]
+            return ["E", ev, fn]
         if y < 0.85:
-            return ["M", tgt]
+            return ["M", fn]
         ks = [g[1] for g in peers if g[2] == tgt]
-        return ["R", ev, r.choice(ks)] if ks else ["E", ev, tgt]
+        return ["R", ev, r.choice(ks)] if ks else ["E", ev, fn]
 
-    def regop(self, level):
+    def wait(self):
+        r = self.r
+        wid = self.next_wid
+        self.next_wid += 1
+        names = []
+        evs = [r.randint(1, self.nev) for _ in range(r.choice([1, 1, 2, 3]))]
+        if r.random() < 0.12:
+            evs.append(evs[0])       # two names for one event ('ev3' and 'ev3.1' / 'ev3{..}'): both handlers see one post
+        seen = set()
+        for ev in evs:
+            key = self.next_key       # names the registration in the trace; the caller of wait_for_any_event has no key
+            self.next_key += 1
+            cond = [r.randint(1, 4), r.randint(-1, 2)] if r.random() < 0.2 else None
+            psuf = r.choice([-1, 1, 2]) if (self.f_suffix and r.random() < 0.25) else None
+            while (ev, None if cond is None else tuple(cond), psuf) in seen:      # the event strings must differ
+                psuf = (psuf or 0) + 1
+            seen.add((ev, None if cond is None else tuple(cond), psuf))
+            names.append([ev, key, cond, psuf])
+        return ["W", wid, names]
+
+    def regop(self, level, top=False):
         r = self.r
         x = r.random()
+        # a wait is made by top-level code only: a program can run many times, the future of one wait id is one object
+        if top and self.f_wait and r.random() < 0.3:
+            return self.wait()
         if x < 0.35 or not self.key_ev:
             ev = r.randint(1, self.nev)
             return ["A", ev, self.handler(ev)]
@@ -185,28 +327,47 @@ class Gen:
         for ev in range(1, self.nev + 1):
             for _ in range(r.choice([0, 1, 1, 2, 2, 3, 4])):
                 boot.append(["A", ev, self.handler(ev)])
+        if self.f_wait:
+            for _ in range(r.choice([1, 1, 2])):
+                boot.append(self.wait())
         r.shuffle(boot)
         stimuli.append({"ctx": "boot", "acts": boot})
         # handlers that call a registry mutator while their own event is being dispatched
-        for ev, key, pid, _ in list(self.regs):
+        for ev, key, pid, _, _ in list(self.regs):
             if r.random() < 0.3 and self.progs.get(pid) is not None:
                 acts = self.progs[pid]["acts"]
                 acts.insert(r.randint(0, len(acts)), self.mutator(ev, pid))
-        for _ in range(r.randint(1, 4)):
+        n = r.randint(1, 4)
+        mon_at = r.randint(0, n - 1) if self.f_monitor else None
+        mon = False
+        for i in range(n):
             acts = []
+            if mon_at == i:
+                acts.append(["O", 1])
+                mon = True
+            elif mon and r.random() < 0.3:
+                acts.append(["O", 0])
+                mon = False
             for _ in range(r.choice([1, 1, 2, 3])):
                 x = r.random()
-                acts.append(self.post(r.choice([0, 0, 0, 1, 2])) if x < 0.8 else self.regop(0))
-            stimuli.append({"ctx": r.choice(["boot", "boot", "delay", "switch", "timed_switch"]), "acts": acts})
+                acts.append(self.post(r.choice([0, 0, 0, 1, 2])) if x < 0.8 else self.regop(0, top=True))
+            # with the monitor on, the machine's own posts (switch events) are queued as well: keep those contexts apart
+            ctxs = ["boot", "boot", "delay"] if (mon or mon_at == i or (acts and acts[0] == ["O", 0])) else \
+                ["boot", "boot", "delay", "switch", "timed_switch"]
+            stimuli.append({"ctx": r.choice(ctxs), "acts": acts})
         return {"progs": {str(k): v for k, v in self.progs.items()}, "stimuli": stimuli}
 
 
 # ---------------------------------------------------------------------------------------------------------------------
 # reference interpreter (the oracle's semantics; independent of the Lean model and shaped differently from the code:
-# plain recursion over the posting tree)
+# plain recursion over the posting tree).  It says nothing about what happens after an exception: it stops there.
 # ---------------------------------------------------------------------------------------------------------------------
 class TooBig(Exception):
     pass
+
+
+class RefStop(Exception):
+    """a handler or callback raised: the reference ends here"""
 
 
 class Ref:
@@ -219,25 +380,40 @@ class Ref:
         self.calls = 0
         self.flags = set()
         self.current = None
+        self.mon = False
+        self.resolved = set()
+        self.waits = {}    # wid -> [(ev, key)]
+
+    def insert(self, ev, h):
+        lst = self.reg.setdefault(ev, [])
+        i = len(lst)
+        # after every handler of priority >= the new one: descending, registration order among equals
+        while i > 0 and hprio(lst[i - 1]) < hprio(h):
+            i -= 1
+        lst.insert(i, h)
 
     def act(self, a, children, in_dispatch):
         if a[0] == "P":
             sn = self.sn
             self.sn += 1
             _, ev, ty, cb, kw = a
-            if cb is None and not self.reg.get(ev):
+            if cb is None and not self.mon and not self.reg.get(ev):
                 return
+            if self.mon:
+                self.trace.append(["m", ev, sn, [list(x) for x in kw]])
+                self.flags.add("monitored-post")
+                if cb is None and not self.reg.get(ev):
+                    self.flags.add("monitor-keeps-handlerless-post")
             children.append((ev, ty, cb, kw, sn))
             if in_dispatch:
                 self.flags.add("post-in-dispatch")
         elif a[0] == "A":
             _, ev, h = a
-            lst = self.reg.setdefault(ev, [])
-            i = len(lst)
-            # after every handler of priority >= the new one: descending, registration order among equals
-            while i > 0 and lst[i - 1][1] < h[1]:
-                i -= 1
-            lst.insert(i, h)
+            self.insert(ev, h)
+            if hpsuf(h) is not None:
+                self.flags.add("priority-suffix")
+            if hfn(h) != h[4]:
+                self.flags.add("partial-callback")
             if in_dispatch:
                 self.flags.add("reg-in-dispatch")
         elif a[0] == "R":
@@ -251,22 +427,41 @@ class Ref:
                 self.flags.add("reg-in-dispatch")
         elif a[0] == "H":
             _, ev, h = a
-            want = dict((k, v) for k, v in h[2])
-            self.reg[ev] = [g for g in self.reg.get(ev, [])
-                            if not (g[4] == h[4] and (not want or dict((k, v) for k, v in g[2]) == want))]
-            self.act(["A", ev, h], children, False)
+            if is_raw(h):
+                # what the code does (the unsplit event string is never a key of registered_handlers): nothing goes
+                if any(hfn(g) == hfn(h) for g in self.reg.get(ev, [])):
+                    self.flags.add("replace-with-suffix-keeps-old-entry")
+                self.flags.add("replace-with-suffix")
+            else:
+                want = dict((k, v) for k, v in h[2])
+                self.reg[ev] = [g for g in self.reg.get(ev, [])
+                                if not (hfn(g) == hfn(h) and (not want or dict((k, v) for k, v in g[2]) == want))]
+            self.insert(ev, h)
             if in_dispatch:
                 self.flags.add("mutator-in-dispatch")
                 if self.current is not None and self.current == ev:
                     self.flags.add("mutator-own-event")
         elif a[0] in ("M", "E"):
-            pid = a[-1]
+            fn = a[-1]
             for ev in (list(self.reg) if a[0] == "M" else [a[1]]):
-                self.reg[ev] = [g for g in self.reg.get(ev, []) if g[4] != pid]
+                self.reg[ev] = [g for g in self.reg.get(ev, []) if hfn(g) != fn]
             if in_dispatch:
                 self.flags.add("mutator-in-dispatch")
                 if self.current is not None and (a[0] == "M" or self.current == a[1]):
                     self.flags.add("mutator-own-event")
+        elif a[0] == "W":
+            self.waits[a[1]] = [(ev, h[0]) for ev, h in wait_entries(a)]
+            for ev, h in wait_entries(a):
+                self.insert(ev, h)
+            self.flags.add("wait-registered")
+        elif a[0] == "O":
+            self.mon = bool(a[1])
+        elif a[0] == "Z":
+            self.flags.add("raise")
+            self.trace.append(["x"])
+            raise RefStop()
+        elif a[0] == "Q":
+            self.flags.add("reenter")      # a re-entrant process_event_queue() must not change anything
         else:
             raise InfraError("bad act %r" % (a,))
 
@@ -276,7 +471,13 @@ class Ref:
         result = None
         children = []
         for h in list(self.reg.get(ev, [])):
-            key, prio, hkw, cond, pid = h
+            key, _, hkw, cond, pid = h[:5]
+            mp = kwargs.get(MPK)
+            if mp is not None and hfac(h) is not None:
+                lim = dict((k, v) for k, v in mp["d"])
+                if lim.get(0, 0) > hprio(h) or (hfac(h) in lim and lim[hfac(h)] > hprio(h)):
+                    self.flags.add("blocked")
+                    continue
             merged = dict(kwargs)
             for k, v in hkw:
                 merged[k] = v
@@ -286,6 +487,19 @@ class Ref:
             if self.calls > CAP:
                 raise TooBig()
             self.trace.append(["c", key, ev, list(map(list, merged.items()))])
+            if pid >= WPID:
+                wid = pid - WPID
+                for wev, wkey in self.waits[wid]:
+                    self.reg[wev] = [g for g in self.reg.get(wev, []) if g[0] != wkey]
+                if wid in self.resolved:
+                    self.flags.add("future-resolved-twice")
+                    self.trace.append(["x"])
+                    raise RefStop()
+                self.resolved.add(wid)
+                self.trace.append(["f", wid])
+                self.flags.add("future-resolved")
+                result = None
+                continue
             p = self.progs[str(pid)]
             self.current = ev
             for a in p["acts"]:
@@ -297,6 +511,9 @@ class Ref:
                 result = rt[1]
             if rt[0] == "D":
                 result = dict((k, v) for k, v in rt[1])
+            if rt[0] == "B":
+                result = {MPK: {"d": [list(x) for x in rt[1]]}}
+                self.flags.add("block-result")
             if ty == "b" and result is False:
                 kwargs[EVR] = False
                 self.flags.add("boolean-stop")
@@ -305,9 +522,16 @@ class Ref:
                 if result:
                     self.flags.add("relay-update")
                 kwargs.update(result)
+            elif isinstance(result, dict) and MPK in result:
+                kwargs[MPK] = result[MPK]
         if cb is not None:
             if result:
-                kwargs[EVR] = {"d": [[k, v] for k, v in result.items()]} if isinstance(result, dict) else result
+                if isinstance(result, dict) and MPK in result:
+                    kwargs[EVR] = {"b": result[MPK]["d"]}
+                elif isinstance(result, dict):
+                    kwargs[EVR] = {"d": [[k, v] for k, v in result.items()]}
+                else:
+                    kwargs[EVR] = result
             self.cbs.append((cb, sn, kwargs))
         for c in children:        # depth-first: the whole subtree of a child before its next sibling / anything older
             self.dispatch(c)
@@ -330,11 +554,19 @@ class Ref:
 
 
 def reference(case):
+    """-> (per-stimulus expected traces, ref); after an exception (`ref.stopped` = index of that stimulus, its trace ends
+    with ["x"]) the reference has no opinion: later stimuli are missing from the list"""
     ref = Ref(case["progs"])
+    ref.stopped = None
     per = []
-    for st in case["stimuli"]:
+    for i, st in enumerate(case["stimuli"]):
         n = len(ref.trace)
-        ref.stimulus(st["acts"])
+        try:
+            ref.stimulus(st["acts"])
+        except RefStop:
+            ref.stopped = i
+            per.append(ref.trace[n:])
+            break
         per.append(ref.trace[n:])
     return per, ref
 
@@ -343,21 +575,33 @@ def reference(case):
 # the real thing
 # ---------------------------------------------------------------------------------------------------------------------
 def kname(k):
-    return "ev_result" if k == EVR else "k%d" % k
+    return "ev_result" if k == EVR else ("_min_priority" if k == MPK else "k%d" % k)
 
 
 def kid(name):
-    return EVR if name == "ev_result" else int(name[1:])
+    return EVR if name == "ev_result" else (MPK if name == "_min_priority" else int(name[1:]))
 
 
-def norm_val(v):
+def fname(f):
+    return "all" if f == 0 else "f%d" % f
+
+
+def fid(name):
+    return 0 if name == "all" else int(name[1:])
+
+
+def norm_val(v, key=None):
     if isinstance(v, dict):
+        if key == "_min_priority":
+            return {"d": [[fid(k), x] for k, x in v.items()]}
+        if "_min_priority" in v and len(v) == 1:
+            return {"b": [[fid(k), x] for k, x in v["_min_priority"].items()]}
         return {"d": [[kid(k), x] for k, x in v.items()]}
     return v
 
 
 def norm_items(kwargs):
-    return [[kid(k), norm_val(v)] for k, v in kwargs.items()]
+    return [[kid(k), norm_val(v, k)] for k, v in kwargs.items()]
 
 
 class HandlerObj:
@@ -381,6 +625,10 @@ class HandlerObj:
         return hash(("HandlerObj", self.pid))
 
 
+class HarnessRaise(Exception):
+    """raised by a generated handler / callback (action Z)"""
+
+
 class Real:
     """Runs a case on a real EventManager."""
 
@@ -395,9 +643,31 @@ class Real:
         self.nested = False
         self.calls = 0
         self.side = []      # for the oracle only: dispatch begin/end, calls, registry actions, in real order
+        self.partials = {}  # fn -> the one callback object of that equality class
+        self.futures = {}   # wid -> (future, {event string: (ev, key)})
+        self.fut_notes = []  # what the futures did beyond the property's text (counted, never a failure)
 
-    def make_handler(self, key, ev, pid):
-        return HandlerObj(self, key, ev, pid)
+    def make_handler(self, key, ev, pid, fn=None):
+        if fn is None or fn == pid:
+            return HandlerObj(self, key, ev, pid)
+        if fn in self.partials:       # the same action run again: the same stored object (`self._handler = partial(...)`)
+            return self.partials[fn]
+        import functools
+        obj = functools.partial(self.call_handler_kw, key, ev, pid)     # equal to nothing but itself
+        self.partials[fn] = obj
+        return obj
+
+    def target(self, fn):
+        """the object a remove_handler / remove_handler_by_event call is given"""
+        if fn in self.partials:
+            return self.partials[fn]
+        if fn >= 10000:
+            import functools
+            return functools.partial(self.call_handler_kw, None, None, fn)   # a fresh partial: never registered
+        return HandlerObj(self, None, None, fn)
+
+    def call_handler_kw(self, key, ev, pid, **kwargs):
+        return self.call_handler(key, ev, pid, kwargs)
 
     def call_handler(self, key, ev, pid, kwargs):
         self.depth += 1
@@ -416,6 +686,8 @@ class Real:
                 return rt[1]
             if rt[0] == "D":
                 return {kname(k): v for k, v in rt[1]}
+            if rt[0] == "B":
+                return {"_min_priority": {fname(f): v for f, v in rt[1]}}
             return {"N": None, "F": False, "T": True}[rt[0]]
         finally:
             self.depth -= 1
@@ -432,18 +704,48 @@ class Real:
                 self.depth -= 1
         return callback
 
+    def wait_handler_called(self, orig, em, _future, _keys, **kwargs):
+        """spy around EventManager._wait_handler"""
+        wid = next((w for w, (f, _) in self.futures.items() if f is _future), None)
+        if wid is None:
+            return orig(em, _future=_future, _keys=_keys, **kwargs)
+        ev, key = self.futures[wid][1].get(kwargs.get("event"), (None, None))
+        self.depth += 1
+        if self.depth > 1:
+            self.nested = True
+        try:
+            self.trace.append(["c", key, ev, norm_items({k: v for k, v in kwargs.items() if k != "event"})])
+            self.side.append(("c", key, ev, WPID + wid))
+            was_done = _future.done()
+            try:
+                return orig(em, _future=_future, _keys=_keys, **kwargs)
+            finally:
+                self.side.append(("r", ["WR", wid]))
+                if not was_done and _future.done():
+                    self.trace.append(["f", wid])
+                    if _future.cancelled() or _future.result() != kwargs:
+                        self.fut_notes.append("future_result_differs_from_delivered_kwargs")
+                left = [k for k in _keys if any(h.key == k.key for h in em.registered_handlers.get(k.event, []))]
+                if left:
+                    self.fut_notes.append("wait_handler_still_registered_after_resolution")
+        finally:
+            self.depth -= 1
+
     def run_acts(self, acts):
         for a in acts:
             if a[0] == "P":
                 _, ev, ty, cb, kw = a
                 sn = self.sn
                 self.sn += 1
+                self.cur_sn = sn
                 f = {"n": self.ev.post, "b": self.ev.post_boolean, "r": self.ev.post_relay}[ty]
                 f("ev%d" % ev, self.make_cb(cb, sn) if cb is not None else None, **{kname(k): v for k, v in kw})
             elif a[0] == "A":
-                _, ev, (key, prio, hkw, cond, pid) = a
-                name = "ev%d" % ev + ("{%s==%d}" % (kname(cond[0]), cond[1]) if cond is not None else "")
-                k = self.ev.add_handler(name, self.make_handler(key, ev, pid), prio, **{kname(k): v for k, v in hkw})
+                _, ev, h = a
+                key, hkw, pid = h[0], h[2], h[4]
+                extra = {"blocking_facility": fname(hfac(h))} if hfac(h) is not None else {}
+                k = self.ev.add_handler(ev_string(ev, h), self.make_handler(key, ev, pid, hfn(h)), h[1],
+                                        **extra, **{kname(k): v for k, v in hkw})
                 self.keys.setdefault(key, []).append(k)
                 self.side.append(("r", a))
             elif a[0] == "R":
@@ -454,19 +756,45 @@ class Real:
                 self.ev.remove_all_handlers_for_event("ev%d" % a[1])
                 self.side.append(("r", a))
             elif a[0] == "H":
-                _, ev, (key, prio, hkw, cond, pid) = a
-                k = self.ev.replace_handler("ev%d" % ev, self.make_handler(key, ev, pid), prio,
+                _, ev, h = a
+                key, hkw, pid = h[0], h[2], h[4]
+                k = self.ev.replace_handler(ev_string(ev, h), self.make_handler(key, ev, pid, hfn(h)), h[1],
                                             **{kname(k): v for k, v in hkw})
                 self.keys.setdefault(key, []).append(k)
                 self.side.append(("r", a))
             elif a[0] == "M":
-                self.ev.remove_handler(HandlerObj(self, None, None, a[1]))
+                self.ev.remove_handler(self.target(a[1]))
                 self.side.append(("r", a))
             elif a[0] == "E":
-                self.ev.remove_handler_by_event("ev%d" % a[1], HandlerObj(self, None, None, a[2]))
+                self.ev.remove_handler_by_event("ev%d" % a[1], self.target(a[2]))
                 self.side.append(("r", a))
+            elif a[0] == "W":
+                names = {}
+                for ev, h in wait_entries(a):
+                    names[ev_string(ev, h)] = (ev, h[0])
+                self.side.append(("r", a))
+                # the future must be known before the first handler can fire: registered below, never fires in between
+                fut = self.ev.wait_for_any_event(list(names))
+                self.futures[a[1]] = (fut, names)
+            elif a[0] == "O":
+                self.ev.monitor_events = bool(a[1])
+            elif a[0] == "Z":
+                raise HarnessRaise("Z")
+            elif a[0] == "Q":
+                self.ev.process_event_queue()
             else:
                 raise InfraError("bad act %r" % (a,))
+
+    def settle(self):
+        """run the loop until nothing is ready any more: advance_time_and_run(0) runs a bounded number of loop iterations,
+        but every invocation of process_event_queue can schedule the next one with call_soon (this matters only after an
+        exception, when an invocation leaves something behind for the next one)"""
+        loop = self.vm.tc.loop
+        for _ in range(200):
+            if not getattr(loop, "_ready", None):
+                return
+            self.vm.run()
+        raise InfraError("the loop does not settle")
 
     def stimulus(self, st):
         vm, m = self.vm, self.vm.machine
@@ -475,9 +803,11 @@ class Real:
         if ctx == "boot":
             self.run_acts(acts)
             vm.run()
+            self.settle()
         elif ctx == "delay":
             m.delay.add(ms=125, callback=lambda: self.run_acts(acts))
             vm.advance(0.25)
+            self.settle()
         elif ctx in ("switch", "timed_switch"):
             ms = 0 if ctx == "switch" else 125
             fired = []
@@ -488,9 +818,11 @@ class Real:
             m.switch_controller.add_switch_handler("s_c01", cb, state=1, ms=ms)
             vm.hit_switch("s_c01", 1)
             vm.advance(0.25)
+            self.settle()
             m.switch_controller.remove_switch_handler("s_c01", cb, state=1, ms=ms)
             vm.hit_switch("s_c01", 0)
             vm.advance(0.125)
+            self.settle()
             if len(fired) != 1:
                 raise InfraError("switch context did not fire exactly once: %r" % fired)
         else:
@@ -504,6 +836,9 @@ CONFIG = "switches:\n  s_c01:\n    number: 1\n"
 class Left(list):
     """[len(event_queue), len(callback_queue)] at the end; .side = the oracle's side log"""
     side = ()
+    fut_notes = ()
+    raised = 0
+    too_big = False
 
 
 def run_real(case):
@@ -513,11 +848,16 @@ def run_real(case):
         vm = VMachine(CONFIG).start()
     except BootError as e:     # the machine itself depends on the event bus: a broken bus may not even boot
         return [], "boot: " + str(e)[:200], False, [0, 0]
-    from mpf.core.events import EventManager
+    from mpf.core.events import EventManager, EventHandlerException
     o_pe = EventManager._process_event
+    o_pq = EventManager.process_event_queue
+    o_wh = EventManager._wait_handler
+    from mpf.core.bcp.bcp_interface import BcpInterface
+    o_mon = BcpInterface.monitor_posted_event
     try:
         vm.align()
         real = Real(vm, case["progs"])
+        raised = []
 
         def spy(em, event, ev_type, callback=None, **kwargs):
             mine = event.startswith("ev") and event[2:].isdigit()
@@ -525,25 +865,70 @@ def run_real(case):
                 real.side.append(("d", int(event[2:]), ev_type))
             try:
                 return o_pe(em, event, ev_type, callback, **kwargs)
+            except BaseException:
+                if mine:
+                    real.side.append(("xd",))
+                raise
             finally:
                 if mine:
                     real.side.append(("e",))
+
+        def spy_queue(em):
+            # an exception that leaves process_event_queue is an observation ("x"); it is caught here, where the
+            # asyncio loop / DelayManager / SwitchController would get it, so the run can go on
+            try:
+                return o_pq(em)
+            except InfraError:
+                raise
+            except Exception as e:
+                ours = isinstance(e, HarnessRaise) or (isinstance(e, EventHandlerException) and
+                                                        isinstance(e.__cause__, (HarnessRaise, __import__("asyncio").InvalidStateError)))
+                if not ours:
+                    raise
+                raised.append(type(e).__name__)
+                real.trace.append(["x"])
+
+        def spy_wait(em, _future, _keys, **kwargs):
+            return real.wait_handler_called(o_wh, em, _future, _keys, **kwargs)
+
+        def monitor(posted):
+            ev = posted.event
+            if ev.startswith("ev") and ev[2:].isdigit():
+                real.trace.append(["m", int(ev[2:]), real.cur_sn, norm_items(posted.kwargs)])
+
         EventManager._process_event = spy
+        EventManager.process_event_queue = spy_queue
+        EventManager._wait_handler = spy_wait
+        BcpInterface.monitor_posted_event = lambda _self, posted: monitor(posted)
         per = []
         crash = None
+        too_big = False
         for st in case["stimuli"]:
             try:
                 per.append(real.stimulus(st))
             except InfraError:
                 raise
             except Exception as e:   # an exception escaping the real code is an observation
-                crash = "%s: %s" % (type(e).__name__, str(e)[:200])
+                if real.calls > 4 * CAP:
+                    too_big = True      # the harness cap (programs that multiply after an exception): not an observation
+                else:
+                    crash = "%s: %s" % (type(e).__name__, str(e)[:200])
                 break
         left = Left([len(vm.machine.events.event_queue), len(vm.machine.events.callback_queue)])
-        left.side = real.side
+        left.side = list(real.side)
+        left.fut_notes = list(real.fut_notes)
+        left.raised = len(raised)
+        left.too_big = too_big
+        # what an exception left queued must not run during the shutdown of the machine (the spies are gone by then)
+        vm.machine.events.monitor_events = False
+        vm.machine.events.event_queue.clear()
+        vm.machine.events.callback_queue.clear()
         return per, crash, real.nested, left
     finally:
         EventManager._process_event = o_pe
+        EventManager.process_event_queue = o_pq
+        EventManager._wait_handler = o_wh
+        BcpInterface.monitor_posted_event = o_mon
         vm.stop()
 
 
@@ -554,22 +939,38 @@ def enc_kw(kw):
     return ",".join("%d:%d" % (k, v) for k, v in kw) if kw else "-"
 
 
+def enc_handler(h):
+    return "%d/%d/%s/%s/%d/%d/%s" % (h[0], hprio(h), enc_kw(h[2]), "-" if h[3] is None else "%d=%d" % tuple(h[3]), h[4],
+                                     hfn(h), "-" if hfac(h) is None else "%d" % hfac(h))
+
+
 def enc_act(a):
     if a[0] == "P":
         return "P %d %s %s %s" % (a[1], a[2], "-" if a[3] is None else a[3], enc_kw(a[4]))
     if a[0] == "A":
-        key, prio, hkw, cond, pid = a[2]
-        return "A %d %d/%d/%s/%s/%d" % (a[1], key, prio, enc_kw(hkw), "-" if cond is None else "%d=%d" % tuple(cond), pid)
+        return "A %d %s" % (a[1], enc_handler(a[2]))
     if a[0] == "R":
         return "R %d %d" % (a[1], a[2])
     if a[0] == "H":
-        key, prio, hkw, cond, pid = a[2]
-        return "H %d %d/%d/%s/-/%d" % (a[1], key, prio, enc_kw(hkw), pid)
+        return "%s %d %s" % ("HR" if is_raw(a[2]) else "H", a[1], enc_handler(a[2]))
     if a[0] == "M":
         return "M %d" % a[1]
     if a[0] == "E":
         return "E %d %d" % (a[1], a[2])
+    if a[0] == "W":     # wait_for_any_event = one add_handler per name; the handler's program is wait_prog()
+        return " | ".join("A %d %s" % (ev, enc_handler(h)) for ev, h in wait_entries(a))
+    if a[0] == "O":
+        return "O %d" % a[1]
+    if a[0] == "Z":
+        return "Z"
+    if a[0] == "Q":
+        return "Q"
     return "X %d" % a[1]
+
+
+def wait_prog(a):
+    """_wait_handler: remove every handler of this wait, then set the future's result"""
+    return " | ".join(["R %d %d" % (ev, h[0]) for ev, h in wait_entries(a)] + ["F %d" % a[1]])
 
 
 def enc_acts(acts):
@@ -581,7 +982,13 @@ def enc_ret(rt):
         return "I%d" % rt[1]
     if rt[0] == "D":
         return "D" + enc_kw(rt[1])
+    if rt[0] == "B":
+        return "B" + enc_kw(rt[1])
     return rt[0]
+
+
+def show_d(d):
+    return "{" + ";".join("%d:%d" % (k, x) for k, x in d) + "}"
 
 
 def show_val(v):
@@ -590,7 +997,7 @@ def show_val(v):
     if v is False:
         return "F"
     if isinstance(v, dict):
-        return "{" + ";".join("%d:%d" % (k, x) for k, x in v["d"]) + "}"
+        return show_d(v["d"]) if "d" in v else "{%d:%s}" % (MPK, show_d(v["b"]))
     return "%d" % v
 
 
@@ -604,12 +1011,32 @@ def show_trace(tr):
     for o in tr:
         if o[0] == "c":
             out.append("c%d.%d.%s" % (o[1], o[2], show_items(o[3])))
-        else:
+        elif o[0] == "b":
             out.append("b%d.%d.%s" % (o[1], o[2], show_items(o[3])))
+        elif o[0] == "m":
+            out.append("m%d.%d.%s" % (o[1], o[2], show_items(o[3])))
+        elif o[0] == "f":
+            out.append("f%d" % o[1])
+        else:
+            out.append("x")
     return " ".join(out) if out else "ok"
 
 
-def run_model(model, case):
+def all_acts(case):
+    for p in case["progs"].values():
+        for a in p["acts"]:
+            yield a
+    for st in case["stimuli"]:
+        for a in st["acts"]:
+            yield a
+
+
+# what runs process_event_queue in each context: the DelayManager and the timed-switch timer call it directly after the
+# user callback; in every context `_post` schedules it with call_soon when it finds event_queue empty
+CTX_OPS = {"boot": ["soon"], "switch": ["soon"], "delay": ["drain", "soon"], "timed_switch": ["drain", "soon"]}
+
+
+def run_model(model, case, want_left=False):
     def ask(line):
         ans = model.ask(line)
         if ans == "bad-op":
@@ -618,10 +1045,17 @@ def run_model(model, case):
     ask("reset")
     for pid, p in case["progs"].items():
         ask(("prog %s %s %s" % (pid, enc_ret(p["ret"]), enc_acts(p["acts"]))).rstrip())
+    for a in all_acts(case):
+        if a[0] == "W":
+            ask("prog %d N %s" % (WPID + a[1], wait_prog(a)))
     per = []
     for st in case["stimuli"]:
         ask(("top " + enc_acts(st["acts"])).rstrip())
-        per.append(ask("drain"))
+        outs = [ask(op) for op in CTX_OPS[st["ctx"]]]
+        outs = [o for o in outs if o != "ok"]
+        per.append(" ".join(outs) if outs else "ok")
+    if want_left:
+        per.append("left " + ask("left"))
     return per
 
 
@@ -643,11 +1077,21 @@ def classify(got, exp):
     if got is None and exp is not None:
         return "missing-observation"
     if exp is None:
-        return "extra-callback" if got[0] == "b" else "extra-handler-call"
+        return {"b": "extra-callback", "c": "extra-handler-call"}.get(got[0], "extra-observation")
     if got[0] != exp[0]:
+        if "x" in (got[0], exp[0]):
+            return "exception-mismatch"
+        if "m" in (got[0], exp[0]):
+            return "monitor-report-mismatch"
+        if "f" in (got[0], exp[0]):
+            return "future-mismatch"
         return "callback-before-pending-events" if got[0] == "b" else "event-after-callback-order"
     if got[0] == "b":
         return "callback-order" if got[1:3] != exp[1:3] else "callback-kwargs"
+    if got[0] == "m":
+        return "monitor-report-mismatch"
+    if got[0] == "f":
+        return "future-mismatch"
     if got[2] != exp[2]:
         return "dispatch-order"
     if got[1] != exp[1]:
@@ -658,22 +1102,35 @@ def classify(got, exp):
 def delivery_monitor(case, side):
     """The property as worded, on the implementation's own sequence of events: for every dispatched event the called
     handlers are entries of the list as it was when the dispatch began (each at most once, in that = priority order),
-    and every such entry that has no condition and was not removed before its turn IS called (boolean events: up to the
-    first False).  The registry mirror is updated from the registry actions in the order the implementation ran them."""
+    and every such entry that has no condition, no blocking facility, and was not removed before its turn IS called
+    (boolean events: up to the first False; a dispatch ended by an exception: up to there).  The registry mirror is
+    updated from the registry actions in the order the implementation ran them."""
     progs = case["progs"]
-    reg = {}                       # ev -> [(key, prio, kw, cond, pid)] in call order
+    reg = {}                       # ev -> [(key, prio, kw, cond-or-facility?, fn)] in call order
+    waits = {}
+
+    def put(ev, h):
+        lst = reg.setdefault(ev, [])
+        j = len(lst)
+        while j > 0 and lst[j - 1][1] < hprio(h):
+            j -= 1
+        optional = h[3] is not None or hfac(h) is not None
+        lst.insert(j, (h[0], hprio(h), tuple(map(tuple, h[2])), optional, hfn(h)))
 
     def apply(a):
         if a[0] == "A" or a[0] == "H":
             ev, h = a[1], a[2]
-            if a[0] == "H":
+            if a[0] == "H" and not is_raw(h):
                 want = dict(map(tuple, h[2]))
-                reg[ev] = [g for g in reg.get(ev, []) if not (g[4] == h[4] and (not want or dict(map(tuple, g[2])) == want))]
-            lst = reg.setdefault(ev, [])
-            j = len(lst)
-            while j > 0 and lst[j - 1][1] < h[1]:
-                j -= 1
-            lst.insert(j, (h[0], h[1], tuple(map(tuple, h[2])), None if h[3] is None else tuple(h[3]), h[4]))
+                reg[ev] = [g for g in reg.get(ev, []) if not (g[4] == hfn(h) and (not want or dict(map(tuple, g[2])) == want))]
+            put(ev, h)
+        elif a[0] == "W":
+            waits[a[1]] = [(ev, h[0]) for ev, h in wait_entries(a)]
+            for ev, h in wait_entries(a):
+                put(ev, h)
+        elif a[0] == "WR":
+            for ev, key in waits.get(a[1], []):
+                reg[ev] = [g for g in reg.get(ev, []) if g[0] != key]
         elif a[0] == "R":
             reg[a[1]] = [g for g in reg.get(a[1], []) if g[0] != a[2]]
         elif a[0] == "X":
@@ -684,12 +1141,18 @@ def delivery_monitor(case, side):
         elif a[0] == "E":
             reg[a[1]] = [g for g in reg.get(a[1], []) if g[4] != a[2]]
 
-    cur = None      # [ev, type, snapshot, pointer, stopped]
+    stack = []      # dispatches in progress (more than one only if process_event_queue is re-entered)
+    cur = None
     for e in side:
         if e[0] == "r":
             apply(e[1])
         elif e[0] == "d":
+            if cur is not None:
+                stack.append(cur)
             cur = {"ev": e[1], "ty": e[2], "snap": list(reg.get(e[1], [])), "i": 0, "stopped": False, "called": []}
+        elif e[0] == "xd":
+            if cur is not None:
+                cur["stopped"] = True
         elif e[0] == "c":
             if cur is None or cur["ev"] != e[2]:
                 return "call-outside-dispatch", {"call": list(e)}
@@ -702,23 +1165,23 @@ def delivery_monitor(case, side):
                                                             "registered_at_begin": [g[0] for g in snap]}
             live = reg.get(cur["ev"], [])
             for g in snap[i:j]:
-                if g[3] is None and g in live:
+                if not g[3] and g in live:
                     return "handler-skipped", {"event": cur["ev"], "type": cur["ty"], "skipped": g[0],
                                                "called": cur["called"] + [e[1]],
                                                "registered_at_begin": [x[0] for x in snap]}
             cur["i"] = j + 1
             cur["called"].append(e[1])
-            if cur["ty"] == "boolean" and progs[str(e[3])]["ret"][0] == "F":
+            if cur["ty"] == "boolean" and e[3] < WPID and progs[str(e[3])]["ret"][0] == "F":
                 cur["stopped"] = True
         elif e[0] == "e":
             if cur is not None and not cur["stopped"]:
                 live = reg.get(cur["ev"], [])
                 for g in cur["snap"][cur["i"]:]:
-                    if g[3] is None and g in live:
+                    if not g[3] and g in live:
                         return "handler-skipped", {"event": cur["ev"], "type": cur["ty"], "skipped": g[0],
                                                    "called": cur["called"],
                                                    "registered_at_begin": [x[0] for x in cur["snap"]]}
-            cur = None
+            cur = stack.pop() if stack else None
     return None
 
 
@@ -727,6 +1190,8 @@ def oracle(case, per_real, crash, nested, left):
     try:
         per_ref, ref = reference(case)
     except TooBig:
+        return None
+    if getattr(left, "too_big", False):
         return None
     if crash is not None:
         return "crash", {"error": crash}
@@ -744,11 +1209,15 @@ def oracle(case, per_real, crash, nested, left):
     if dup:
         return "callback-twice", {"serials": dup}
     for i, (got, exp) in enumerate(zip(per_real, per_ref)):
+        if ref.stopped == i:
+            # the reference ends at the first exception: everything up to it must be as the property says
+            cut = next((j for j, o in enumerate(got) if o[0] == "x"), None)
+            got = got[:cut + 1] if cut is not None else got
         d = first_diff(got, exp)
         if d is not None:
             return classify(d[1], d[2]), {"stimulus": i, "index": d[0], "got": d[1], "expected": d[2],
                                           "ctx": case["stimuli"][i]["ctx"]}
-    if left != [0, 0]:
+    if ref.stopped is None and left != [0, 0]:
         return "queue-not-drained", {"left": left}
     return None
 
@@ -780,7 +1249,7 @@ def prune(case):
     used, todo = set(), [a for st in case["stimuli"] for a in st["acts"]]
     while todo:
         a = todo.pop()
-        pid = a[3] if a[0] == "P" else (a[2][4] if a[0] == "A" else None)
+        pid = a[3] if a[0] == "P" else (a[2][4] if a[0] in ("A", "H") else None)
         if pid is not None and str(pid) not in used:
             used.add(str(pid))
             todo += case["progs"][str(pid)]["acts"]
@@ -846,12 +1315,49 @@ def corpus():
                                                            ["A", 1, H(4, 0, 4)], ["A", 1, H(5, 0, 3, [[1, 1]])]]},
                                   {"ctx": "boot", "acts": [["P", 1, ty, 9, []], ["P", 1, ty, 9, []]]},
                                   {"ctx": "delay", "acts": [["P", 1, ty, None, [[2, 2]]]]}]})
+    X = lambda **kw: kw
+    # blocking: 1 returns {_min_priority: {all: 0, f1: 4}}: 2 (f1, prio 3) is skipped, 3 (f1, prio 4) and 4 (no facility)
+    # are called with the limit in their kwargs; the callback gets it as well; same for a relay event (update) and 'all'
+    for ty in ("n", "r", "b"):
+        cases.append({"progs": {"1": {"acts": [], "ret": ["B", [[0, 0], [1, 4]]]}, "2": {"acts": [], "ret": ["N"]},
+                                "3": {"acts": [], "ret": ["B", [[0, 1]]]}, "9": {"acts": [], "ret": ["N"]}},
+                      "stimuli": [{"ctx": "boot", "acts": [["A", 1, H(1, 5, 1)], ["A", 1, H(2, 3, 2) + [X(fac=1)]],
+                                                           ["A", 1, H(3, 4, 3) + [X(fac=1)]], ["A", 1, H(4, 0, 2)],
+                                                           ["A", 1, H(5, 0, 2) + [X(fac=2)]], ["A", 1, H(6, 1, 2) + [X(fac=2)]]]},
+                                  {"ctx": "boot", "acts": [["P", 1, ty, 9, [[1, 1]]], ["P", 1, ty, None, []]]}]})
+    # exception: 2 raises after posting: 3 is not called, callback 9 of that post never runs, the waiting event 2 is lost,
+    # the event posted before the raise stays queued until the next invocation; callback 8 (queued earlier) survives
+    cases.append({"progs": {"1": {"acts": [], "ret": ["N"]}, "2": {"acts": [["P", 3, "n", None, []], ["Z"], ["P", 3, "n", None, []]], "ret": ["N"]},
+                            "8": {"acts": [], "ret": ["N"]}, "9": {"acts": [], "ret": ["N"]}},
+                  "stimuli": [{"ctx": "boot", "acts": [["A", 1, H(1, 2, 1)], ["A", 1, H(2, 1, 2)], ["A", 1, H(3, 0, 1)],
+                                                       ["A", 2, H(4, 0, 1)], ["A", 3, H(5, 0, 1)], ["A", 4, H(6, 0, 1)]]},
+                              {"ctx": "boot", "acts": [["P", 4, "n", 8, []], ["P", 1, "n", 9, []], ["P", 2, "n", None, []]]},
+                              {"ctx": "delay", "acts": [["P", 2, "n", None, []]]},
+                              {"ctx": "timed_switch", "acts": [["P", 1, "n", 9, []]]}]})
+    # event strings: 'ev1.2' adds 2 to the priority; replace_handler('ev1.1', ...) / ('ev1{k1==1}', ...) removes nothing;
+    # a partial only equals itself: replace with a new partial keeps the old entry, remove with the stored one works
+    cases.append({"progs": {"1": {"acts": [], "ret": ["N"]}, "2": {"acts": [], "ret": ["N"]}},
+                  "stimuli": [{"ctx": "boot", "acts": [["A", 1, H(1, 0, 1) + [X(psuf=2)]], ["A", 1, H(2, 1, 1)],
+                                                       ["A", 1, H(3, 0, 2) + [X(fn=10003)]], ["P", 1, "n", None, [[1, 1]]]]},
+                              {"ctx": "boot", "acts": [["H", 1, H(4, 0, 1) + [X(psuf=1)]], ["H", 1, H(5, 0, 1, None, [1, 1])],
+                                                       ["H", 1, H(6, 3, 2) + [X(fn=10006)]], ["P", 1, "n", None, [[1, 1]]]]},
+                              {"ctx": "switch", "acts": [["E", 1, 10003], ["M", 10099], ["H", 1, H(7, -1, 1)],
+                                                         ["P", 1, "n", None, [[1, 1]]]]}]})
+    # monitor: every post is reported and queued, also the one nobody listens to; wait_for_any_event on two strings of one
+    # event and one of another: the first post resolves (second handler of the same snapshot: InvalidStateError)
+    cases.append({"progs": {"1": {"acts": [["P", 3, "n", None, [[2, 2]]]], "ret": ["N"]}, "9": {"acts": [], "ret": ["N"]}},
+                  "stimuli": [{"ctx": "boot", "acts": [["A", 1, H(1, 0, 1)], ["W", 1, [[2, 2, None, None], [1, 3, [1, 1], None]]],
+                                                       ["W", 2, [[2, 4, None, None], [2, 5, None, 1]]]]},
+                              {"ctx": "boot", "acts": [["O", 1], ["P", 1, "n", 9, [[1, 1]]], ["P", 3, "b", None, []]]},
+                              {"ctx": "delay", "acts": [["P", 1, "n", None, [[1, 1]]], ["O", 0], ["P", 3, "n", None, []]]},
+                              {"ctx": "boot", "acts": [["P", 2, "r", 9, [[3, 3]]]]}]})
     return cases
 
 
 def is_nontrivial(ref):
     return bool(ref.flags & {"post-in-dispatch", "reg-in-dispatch", "boolean-stop", "relay-update", "post-in-callback",
-                             "mutator-in-dispatch"})
+                             "mutator-in-dispatch", "blocked", "raise", "future-resolved", "monitored-post",
+                             "replace-with-suffix", "future-resolved-twice"})
 
 
 def one_case(ctx, model, case, sample=True):
@@ -874,9 +1380,19 @@ def one_case(ctx, model, case, sample=True):
         r2, _ = check_case(small)
         ctx.fail(res[0], small, (r2 or res)[1])
         return
+    if getattr(left, "too_big", False):
+        ctx.count("skipped_too_big")
+        return
+    # observations beyond the property's text: counted, compared with the model, never a failure
+    for note in getattr(left, "fut_notes", ()):
+        ctx.count("obs_" + note)
+    if getattr(left, "raised", 0):
+        ctx.count("obs_invocations_ended_by_exception", left.raised)
+        if left != [0, 0]:
+            ctx.count("obs_events_or_callbacks_left_queued_after_exception")
     if model is not None:
-        mper = run_model(model, case)
-        ctx.compare(case, [show_trace(tr) for tr in per], mper)
+        mper = run_model(model, case, want_left=True)
+        ctx.compare(case, [show_trace(tr) for tr in per] + ["left %d %d" % (left[0], left[1])], mper)
 
 
 def small_scope(ctx, model):
@@ -907,9 +1423,12 @@ def run(ctx):
             one_case(ctx, model, case)
         if ctx.tier == "thorough" and not ctx.search:
             small_scope(ctx, model)
+        from harness.common import mpfleak
         for i in range(ctx.n(700, 9000)):
             r = ctx.rng("case", i)
             one_case(ctx, model, Gen(r).case())
+            if i % 200 == 199:
+                mpfleak.release()      # MPF's class-level caches keep every booted machine alive (0.8 MB each)
             if len(ctx.failures) >= 3:
                 break
     finally:
